@@ -541,6 +541,18 @@ func (v *V) Realise() any {
 		return s.Interface()
 	case 'U':
 		return time.Unix(v.A, 0).UTC()
+	case 'X':
+		// the floats the model has no value for (VFlt): realised for the streams that only observe the implementation
+		switch v.S {
+		case "float:NaN":
+			return math.NaN()
+		case "float:+Inf":
+			return math.Inf(1)
+		case "float:-Inf":
+			return math.Inf(-1)
+		case "float:-0":
+			return math.Copysign(0, -1)
+		}
 	}
 	panic("cannot realise " + v.Enc())
 }
